@@ -160,6 +160,76 @@ theorem never_instantiates_disallowed (env : Env) (fuel : Nat) (s : Sexp) (c : O
 theorem isTypeAllowed_of_dot (p : Policy) (t : Bytes) (h : (46 : UInt8) ∈ t) : p.isTypeAllowed t = true := by
   simp [Policy.isTypeAllowed, h]
 
+/-! ### The policy API in every argument form (`allowModules` / `allowTypes` of bytes, str, module / class objects)
+
+The theorems above quantify over every `Policy`, hence over policies built through any of these forms; what is
+added here is that a form allows exactly what it names. -/
+
+theorem contains_append' (xs ys : List Bytes) (b : Bytes) :
+    (xs ++ ys).contains b = (xs.contains b || ys.contains b) := by
+  induction xs with
+  | nil => simp
+  | cons x xs ih => rw [List.cons_append, List.contains_cons, List.contains_cons, ih, Bool.or_assoc]
+
+theorem contains_map_key (as : List ModArg) (b : Bytes) :
+    (as.map ModArg.key).contains b = as.any (fun a => b == a.key) := by
+  induction as with
+  | nil => rfl
+  | cons a as ih => rw [List.map_cons, List.contains_cons, ih, List.any_cons]
+
+/-- `allowModules(*args)` allows exactly the modules allowed before plus the names the arguments stand for (a str
+    as its utf-8 bytes, a module object as its `__name__`) — never a parent package, never a submodule. -/
+theorem allowModuleArgs_exact (p : Policy) (as : List ModArg) (name : String) :
+    (p.allowModuleArgs as).isModuleAllowed name
+      = (p.isModuleAllowed name || as.any (fun a => utf8 name == a.key)) := by
+  unfold Policy.allowModuleArgs Policy.allowModules Policy.isModuleAllowed
+  simp only [contains_append', contains_map_key]
+
+/-- … and changes neither the allowed classes nor the allowed types. -/
+theorem allowModuleArgs_classes_types (p : Policy) (as : List ModArg) :
+    (p.allowModuleArgs as).classes = p.classes ∧ (p.allowModuleArgs as).types = p.types := ⟨rfl, rfl⟩
+
+/-- `allowTypes(SomeClass, …)` adds nothing: the policy is unchanged. -/
+theorem allowTypeArgs_classes_nothing (p : Policy) (ks : List ObjId) :
+    p.allowTypeArgs (ks.map TypeArg.cls) = p := by
+  have h : (ks.map TypeArg.cls).filterMap TypeArg.key? = [] := by
+    induction ks with
+    | nil => rfl
+    | cons k ks ih => simp [TypeArg.key?]
+  simp [Policy.allowTypeArgs, Policy.allowTypes, h]
+
+/-- `allowTypes` never touches the allowed modules or classes, whatever the argument forms. -/
+theorem allowTypeArgs_modules_classes (p : Policy) (as : List TypeArg) :
+    (p.allowTypeArgs as).modules = p.modules ∧ (p.allowTypeArgs as).classes = p.classes := ⟨rfl, rfl⟩
+
+/-- Corollary in the words of the statement, for a policy that allows modules by module object only: a successful
+    import during unjelly is of a module `m` whose name is (has the utf-8 bytes of) the `__name__` of one of those
+    module objects, or of a parent package of such an `m`. -/
+theorem never_imports_disallowed_module_objects (W : World) (R : Registry) (mods : List String) (fuel : Nat)
+    (s : Sexp) (name : String)
+    (h : Event.imp name true ∈ (unjelly ⟨W, Policy.init.allowModuleArgs (mods.map .obj), R⟩ fuel s {}).2.events) :
+    ∃ m, (∃ n ∈ mods, utf8 m = utf8 n) ∧ nameOrParent name m := by
+  obtain ⟨m, hm, hn⟩ := never_imports_disallowed _ fuel s name h
+  refine ⟨m, ?_, hn⟩
+  have hm' : (Policy.init.allowModuleArgs (mods.map .obj)).isModuleAllowed m = true := hm
+  rw [allowModuleArgs_exact] at hm'
+  have h0 : Policy.init.isModuleAllowed m = false := by simp [Policy.isModuleAllowed, Policy.init]
+  rw [h0, Bool.false_or, List.any_eq_true] at hm'
+  obtain ⟨a, ha, hk⟩ := hm'
+  obtain ⟨n, hn', rfl⟩ := List.mem_map.1 ha
+  exact ⟨n, hn', by simpa [ModArg.key] using hk⟩
+
+/-- non-vacuity: allowing the module object `c45safe.sub` allows the name `c45safe.sub` … -/
+example : (Policy.init.allowModuleArgs [.obj "c45safe.sub"]).isModuleAllowed "c45safe.sub" = true := by
+  simp [Policy.allowModuleArgs, Policy.allowModules, Policy.isModuleAllowed, Policy.init, ModArg.key]
+
+/-- … and a name is refused unless some argument stands for it (here: class objects given to `allowTypes` and an
+    empty `allowModules` allow no module at all) -/
+example (ks : List ObjId) (name : String) :
+    ((Policy.init.allowTypeArgs (ks.map .cls)).allowModuleArgs []).isModuleAllowed name = false := by
+  rw [allowTypeArgs_classes_nothing, allowModuleArgs_exact]
+  simp [Policy.isModuleAllowed, Policy.init]
+
 /-! ### Non-vacuity: the predicates are not trivially true, and the guards are reachable -/
 
 /-- a policy that allows nothing beyond `SecurityOptions()` -/
